@@ -33,6 +33,7 @@ BOUNDS = [
     "flips and the all-flipped mesh, 2 face orders (quick: 3 flip subsets, 1 order)",
     "self-intersection: (a) thin spike B (apex c+d*(1,1,1) on the axis through the centroid c of the slanted face of tetrahedron A=4*unit, base 1 further out), "
     "d in [-1.3,1] symbolic, truth -1<d<0; (a') a short thin spike through the same face next to its corner, far from the face centroid, d in [-0.25,0.2]; "
+    "(c) ridge over ridge (exactly two piercing edges), d in [-1,1], truth d<0, with the ridge in edge slot 0 / 1 / 2 of every face that contains it; "
     "(b) B = A shifted by d along x, d in [-5,5], truth 0<|d|<4; touching configurations excluded by bands of 1e-5 "
     "(the code's point tolerance eps is 1e-6); face orders B-first, A-first, interleaved (thorough: + reversed interleaved, one flipped face)",
 ]
@@ -102,6 +103,9 @@ def cases(tier, seed):
                     continue  # quick: the off-centre spike (B first) covers one-directional piercing; the centred spike family is thorough-tier
                 out.append({"id": f"selfintersect-{geom}-{order}" + ("-flip1" if fl else ""), "kind": "selfintersect", "geom": geom, "order": order, "flips": fl, "weight": 9,
                             "budget": 700 if tier == "quick" else 3000})
+    for slot in (0, 1, 2):
+        out.append({"id": f"selfintersect-ridge-slot{slot}", "kind": "selfintersect", "geom": "ridge", "order": "Bfirst", "slot": slot, "flips": [], "weight": 9,
+                    "budget": 700 if tier == "quick" else 3000})
     for base in ("prism", "cube"):
         nf = len(BASES[base][1])
         orders = [list(range(nf)), list(range(nf))[::-1]]
@@ -133,6 +137,11 @@ def _si_geometry(kind, d):
     for i in range(4):
         for k in range(3):
             V[i, k] = S(toz(A4[i, k]))
+    if kind == "ridge":
+        for i in range(8):
+            for k in range(3):
+                V[i, k] = S(toz(RIDGE_V[i, k])) + (d if (i >= 4 and k == 2) else 0)
+        return V.view(SymArray), [d.z >= -1, d.z <= 1, _band(d.z)], d.z < 0
     if kind == "spike":
         third = S(z3.RealVal("4/3"))
         U = np.array([(1, -1, 0), (0, 1, -1), (-1, 0, 1)], dtype=float) * 0.25
@@ -169,6 +178,10 @@ SPIKE_CORNER_W = 0.03125
 
 
 def _si_geometry_float(kind, dv):
+    if kind == "ridge":
+        V = RIDGE_V.copy()
+        V[4:, 2] += dv
+        return V, dv < 0
     V = np.zeros((8, 3))
     V[:4] = A4
     if kind == "spike-corner":
@@ -191,7 +204,24 @@ SI_ORDERS = {"Bfirst": F_B + F_A, "Afirst": F_A + F_B, "interleaved": [f for ab 
              "interleaved-rev": [f for ab in zip(F_B[::-1], F_A[::-1]) for f in ab]}
 
 
+# ridge over ridge: A has its ridge a0-a1 along x at z=0 (body below), B its ridge b0-b1 along y at z=d (body above); for d<0 each ridge pierces the two
+# faces of the other body that meet in its ridge - exactly two piercing edges.  slot k: the vertex order of the four faces that contain a ridge puts the
+# ridge into edge slot k (0: v0-v1, 1: v1-v2, 2: v2-v0) of every one of them (the order of the vertices inside a face must not matter)
+RIDGE_V = np.array([(-2, 0, 0), (2, 0, 0), (0, -2, -3), (0, 2, -3), (0, -2, 0), (0, 2, 0), (-2, 0, 3), (2, 0, 3)], dtype=float)  # B at d=0
+
+
+def _ridge_faces(slot):
+    def rot(r0, r1, o):  # face with ridge (r0, r1) and third vertex o, ridge in the requested slot
+        return {0: [r0, r1, o], 1: [o, r0, r1], 2: [r0, o, r1]}[slot]
+
+    fa = [rot(0, 1, 2), rot(0, 1, 3), [0, 2, 3], [1, 3, 2]]
+    fb = [rot(4, 5, 6), rot(4, 5, 7), [4, 6, 7], [5, 7, 6]]
+    return fb + fa
+
+
 def _si_faces(case):
+    if case.get("geom") == "ridge":
+        return np.array(_ridge_faces(case["slot"]), dtype=int)
     faces = [list(f) for f in SI_ORDERS[case["order"]]]
     for k in case.get("flips", []):
         faces[k] = [faces[k][0], faces[k][2], faces[k][1]]
@@ -234,7 +264,7 @@ def _run_selfintersect(case, info):
     V, pre, truth = _si_geometry(case["geom"], d)
     CTX.pre = list(pre)
     faces = _si_faces(case)
-    rp = {"kind": "selfintersect", "geom": case["geom"], "order": case["order"], "flips": case.get("flips", [])}
+    rp = {"kind": "selfintersect", "geom": case["geom"], "order": case["order"], "flips": case.get("flips", []), "slot": case.get("slot")}
 
     def run():
         try:
@@ -259,7 +289,7 @@ def _run_selfintersect(case, info):
             C.samples.append({"case": case["id"], "what": f"path reporting intersecting triangles {np.asarray(p.out).tolist()}: feasible only for d with truth={reported}"})
 
     seeds = {"spike": [{"d": -0.5}, {"d": 0.5}, {"d": -1.2}], "spike-corner": [{"d": -0.125}, {"d": 0.125}, {"d": -0.21875}],
-             "shifted": [{"d": 1.0}, {"d": -2.5}, {"d": 4.5}, {"d": -4.5}]}[case["geom"]]
+             "shifted": [{"d": 1.0}, {"d": -2.5}, {"d": 4.5}, {"d": -4.5}], "ridge": [{"d": -0.5}, {"d": 0.5}]}[case["geom"]]
     C.try_envs = seeds
     paths = explore(run, max_paths=60 if C.tier == "quick" else 400, on_path=on_path, seeds=seeds)
     C.decisions += sum(len(p.decisions) for p in paths)
